@@ -378,7 +378,13 @@ func (s *c10Sys) stateKey(stored []c10Stored) string {
 	var sb strings.Builder
 	now := vs.Now()
 	for _, st := range stored {
-		fmt.Fprintf(&sb, "E[%x|%x|st%d|me%d|ce%d]", st.key, c10Pack(st.it.resp), now.Sub(st.it.storedTime), st.it.expirationTime.Sub(now), st.cacheExp.Sub(now))
+		// The stored message's Id (the id of the query that caused the store) is
+		// the one component left out: hits overwrite it, and query ids are a
+		// path-dependent counter that must not leak into the canonical state.
+		// (A hit that fails to overwrite it is flagged by the id oracle.)
+		pm := *st.it.resp
+		pm.Id = 0
+		fmt.Fprintf(&sb, "E[%x|%x|st%d|me%d|ce%d]", st.key, c10Pack(&pm), now.Sub(st.it.storedTime), st.it.expirationTime.Sub(now), st.cacheExp.Sub(now))
 	}
 	for k := 0; k < 2; k++ {
 		me := s.model[k]
@@ -570,7 +576,12 @@ func TestVerifC10(t *testing.T) {
 		return
 	}
 	res := vr.New("C10", e)
-	depth := 5
+	if msg := c10WalkerSelfTest(); msg != "" {
+		res.Infra = "heap walker self-test failed: " + msg
+		res.Write(e)
+		return
+	}
+	depth := 6
 	if e.Tier == "thorough" {
 		depth = 8
 	}
@@ -613,7 +624,7 @@ func TestVerifC10(t *testing.T) {
 	var levels []int // states expanded per depth by this shard
 	completed := 0
 	maxDepth := 0
-	sampled := map[string]bool{}
+	sampled := map[string]map[string]any{} // op class -> one concrete sequence
 	stop := false
 	for d := 0; d < depth && !stop; d++ {
 		if d == split && e.Shards > 1 {
@@ -653,9 +664,8 @@ func TestVerifC10(t *testing.T) {
 						oc += "|VIOLATION"
 					}
 					res.Outcome(oc)
-					if !sampled[oc] && len(full) >= 3 {
-						sampled[oc] = true
-						res.Sample(map[string]any{"ops": full, "outcome": oc, "stored_entries": r.nStored, "messages_walked": r.nHanded})
+					if cur, ok := sampled[r.class]; !ok || len(cur["ops"].([]string)) < len(full) && len(cur["ops"].([]string)) < 4 {
+						sampled[r.class] = map[string]any{"ops": full, "outcome": oc, "stored_entries": r.nStored, "messages_walked": r.nHanded}
 					}
 				}
 				if _, seen := visited[r.key]; !seen {
@@ -676,6 +686,34 @@ func TestVerifC10(t *testing.T) {
 		frontier = next
 	}
 	res.States = int64(len(visited))
+	{ // samples: one sequence per op class, rarest target kinds first
+		rank := func(c string) int {
+			for i, p := range []string{"mut-refresh/", "mut-lazy/", "drain", "mut-upstream/", "mut-hit/", "query", "expire", "tick"} {
+				if strings.HasPrefix(c, p) {
+					return i
+				}
+			}
+			return 99
+		}
+		var cls []string
+		for c := range sampled {
+			cls = append(cls, c)
+		}
+		sort.Slice(cls, func(i, j int) bool {
+			if ri, rj := rank(cls[i]), rank(cls[j]); ri != rj {
+				return ri < rj
+			}
+			return cls[i] < cls[j]
+		})
+		seenRank := map[int]int{}
+		for _, c := range cls {
+			if seenRank[rank(c)] >= 1 {
+				continue
+			}
+			seenRank[rank(c)]++
+			res.Sample(sampled[c])
+		}
+	}
 	res.Bounds["max_depth_reached"] = maxDepth
 	if e.Shard == 0 {
 		res.Bounds["shard0_states_expanded_per_depth"] = levels
@@ -712,4 +750,53 @@ func c10Replay(t *testing.T, in json.RawMessage) {
 	if !bad {
 		fmt.Println("REPLAY-OK: this operation sequence does not violate the property on the current tree")
 	}
+}
+
+// c10WalkerSelfTest is a positive/negative control of oracle (2) run before every
+// exploration: deep copies share nothing, and each classic aliasing shape is seen.
+func c10WalkerSelfTest() string {
+	a, opt := c10Build(0, 1, 1)
+	a.Extra = append(a.Extra, opt)
+	root := func(kind string, o ...any) *c10Root { return &c10Root{Kind: kind, Name: kind, Objs: o} }
+	expect := func(name string, want string, roots ...*c10Root) string {
+		sh := c10FindSharing(roots)
+		got := ""
+		if len(sh) > 0 {
+			got = c10PathClass(sh[0].PathA)
+		}
+		if got != want {
+			return fmt.Sprintf("%s: want sharing %q, got %q (%d pairs)", name, want, got, len(sh))
+		}
+		return ""
+	}
+	b := a.Copy()
+	if m := expect("deep copy", "", root("a", a), root("b", b)); m != "" {
+		return m
+	}
+	if m := expect("copyNoOpt-shaped item", "", root("stored", &item{resp: a.Copy()}), root("a", a), root("b", b)); m != "" {
+		return m
+	}
+	if m := expect("same message behind an unexported field", "Msg", root("stored", &item{resp: a}), root("a", a)); m != "" {
+		return m
+	}
+	sh := *a // shallow: shares all section backing arrays
+	if m := expect("shallow struct copy", "Ns[]", root("a", a), root("sh", &dns.Msg{MsgHdr: sh.MsgHdr, Ns: sh.Ns})); m != "" {
+		return m
+	}
+	c := a.Copy()
+	c.Answer[1].(*dns.A).A = a.Answer[1].(*dns.A).A // only the address bytes are shared
+	if m := expect("shared net.IP backing array", "Answer.*dns.A.A[]", root("a", a), root("c", c)); m != "" {
+		return m
+	}
+	d := a.Copy()
+	d.Answer = a.Answer[:0] // zero length, shared capacity
+	if m := expect("zero-length reslice of a shared array", "Answer[]", root("a", a), root("d", d)); m != "" {
+		return m
+	}
+	f := a.Copy()
+	f.Extra[2].(*dns.OPT).Option[0] = a.Extra[2].(*dns.OPT).Option[0]
+	if m := expect("shared EDNS0 option", "Extra.*dns.OPT.Option.*dns.EDNS0_LOCAL", root("a", a), root("f", f)); m != "" {
+		return m
+	}
+	return ""
 }
